@@ -166,9 +166,10 @@ impl Phase for HugeGaps {
         let gap: String = match r.below(5) {
             0 => " ".repeat(size),
             1 => "\n".repeat(size),
-            2 => format!("/*{}*/", "c".repeat(size.saturating_sub(4))),
-            3 => "/**/".repeat(size / 4 + 1),
-            _ => format!("//{}\n", "é".repeat(size / 2)),
+            // (comments are set off by one blank on each side: glued to a `/` or `*` token they would be other tokens)
+            2 => format!(" /*{}*/ ", "c".repeat(size.saturating_sub(6))),
+            3 => format!(" {} ", "/**/".repeat(size / 4 + 1)),
+            _ => format!(" //{}\n", "é".repeat(size / 2)),
         };
         // before the first token, after the last one, or between two tokens
         let pos = r.below(toks.len() + 1);
